@@ -56,8 +56,121 @@ pub fn fmt_msg(m: &vh::PlainMsg) -> String {
     )
 }
 
+/// rec: namehex/newnamehex|~/ty/class/flush/ttl/created/rdata
+pub fn parse_rec(s: &str) -> Option<vh::PlainRecord> {
+    let f: Vec<&str> = s.split('/').collect();
+    if f.len() != 8 {
+        return None;
+    }
+    let name = unhex_str(f[0])?;
+    let new_name = if f[1] == "~" { None } else { Some(unhex_str(f[1])?) };
+    let ty: u16 = f[2].parse().ok()?;
+    let class: u16 = f[3].parse().ok()?;
+    let flush = f[4] == "1";
+    let ttl: u32 = f[5].parse().ok()?;
+    let created: u64 = f[6].parse().ok()?;
+    let (k, v) = f[7].split_once(':')?;
+    let rdata = match k {
+        "A" => {
+            let b = unhex(v);
+            if b.len() == 4 {
+                vh::PlainRData::Addr(IpAddr::from(<[u8; 4]>::try_from(&b[..]).ok()?))
+            } else {
+                vh::PlainRData::Addr(IpAddr::from(<[u8; 16]>::try_from(&b[..]).ok()?))
+            }
+        }
+        "P" => vh::PlainRData::Ptr(unhex_str(v)?),
+        "S" => {
+            let g: Vec<&str> = v.split(',').collect();
+            vh::PlainRData::Srv {
+                priority: g[0].parse().ok()?,
+                weight: g[1].parse().ok()?,
+                port: g[2].parse().ok()?,
+                host: unhex_str(g[3])?,
+            }
+        }
+        "T" => vh::PlainRData::Txt(unhex(v)),
+        "H" => {
+            let (a, b) = v.split_once(',')?;
+            vh::PlainRData::HInfo { cpu: unhex_str(a)?, os: unhex_str(b)? }
+        }
+        "N" => {
+            let (a, b) = v.split_once(',')?;
+            vh::PlainRData::NSec { next: unhex_str(a)?, bitmap: unhex(b) }
+        }
+        _ => return None,
+    };
+    Some(vh::PlainRecord {
+        name,
+        new_name,
+        ty,
+        class,
+        flush,
+        ttl,
+        created,
+        expires: 0,
+        refresh: 0,
+        if_index: 1,
+        rdata,
+    })
+}
+
+fn parse_list<'a>(s: &'a str, pre: &str) -> Vec<&'a str> {
+    let s = s.strip_prefix(pre).unwrap_or(s);
+    if s == "-" {
+        Vec::new()
+    } else {
+        s.split(';').collect()
+    }
+}
+
+/// enc flags id mc q=<namehex,ty;...> an=<rec@now;...> ns=<rec;...> ar=<rec;...>
+pub fn parse_outgoing(t: &[&str]) -> Option<vh::PlainOutgoing> {
+    let mut o = vh::PlainOutgoing {
+        flags: t[1].parse().ok()?,
+        id: t[2].parse().ok()?,
+        multicast: t[3] == "1",
+        questions: Vec::new(),
+        answers: Vec::new(),
+        authorities: Vec::new(),
+        additionals: Vec::new(),
+    };
+    for q in parse_list(t[4], "q=") {
+        let (n, ty) = q.split_once(',')?;
+        o.questions.push((unhex_str(n)?, ty.parse().ok()?));
+    }
+    for a in parse_list(t[5], "an=") {
+        let (r, now) = a.split_once('@')?;
+        o.answers.push((parse_rec(r)?, now.parse().ok()?));
+    }
+    for a in parse_list(t[6], "ns=") {
+        o.authorities.push(parse_rec(a)?);
+    }
+    for a in parse_list(t[7], "ar=") {
+        o.additionals.push(parse_rec(a)?);
+    }
+    Some(o)
+}
+
 pub fn run(t: &[&str]) -> String {
     match t[0] {
+        "enc" | "encdec" => {
+            let Some(o) = parse_outgoing(t) else { return "SKIP".into() };
+            let Some(pk) = vh::encode(&o) else { return "SKIP".into() };
+            let parts: Vec<String> = pk
+                .iter()
+                .map(|(d, names)| {
+                    let ns: Vec<String> =
+                        names.iter().map(|(k, v)| format!("{}={}", hex(k.as_bytes()), v)).collect();
+                    let dec = match vh::decode(d.clone(), 1) {
+                        Ok(m) => fmt_msg(&m),
+                        Err(_) => "ERR".to_string(),
+                    };
+                    format!("{}@{}@{}", hex(d), if ns.is_empty() { "-".to_string() } else { ns.join(",") }, dec)
+                })
+                .collect();
+            format!("OK {}", parts.join(" ## "))
+        }
         "dec" => match vh::decode(unhex(t[1]), 1) {
             Ok(m) => format!("OK {}", fmt_msg(&m)),
             Err(_) => "ERR".into(),
